@@ -170,6 +170,22 @@ def applyTorsion (r2d small : α) (pos : Str → V3 α) (a b c d : Str) (M : Lis
 def rotateTetrahedral (a1 a2 : V3 α) (angle : α) (moved : List (V3 α)) : List (V3 α) :=
   (qchichange (V3.sub a2 a1) (moved.map (fun p => V3.sub p a1)) angle).map (fun p => V3.add p a1)
 
+/-- `rebuild_tetrahedral` with two hydrogens present (`h0`, `h1`, bonded to `bond`, whose other
+neighbour is `next`): the candidates are `h0` turned by 120 and by 240 degrees about the bond; the
+one FARTHER from `h1` is taken (after the repair: before it, the first one unless `h1` was within
+0.1 Å of it). The code turns all hydrogens three times by 120 degrees and reads the candidates off
+the first one; the three turns put everything back (`rotate_cycle_identity`). -/
+def thirdHydrogen (next bond h0 h1 : V3 α) : V3 α :=
+  let n1 := (rotateTetrahedral next bond (GNum.ofNat 120) [h0]).getD 0 h0
+  let n2 := (rotateTetrahedral next bond (GNum.ofNat 120) [n1]).getD 0 n1
+  if GNum.lt (dist h1 n2) (dist h1 n1) then n1 else n2
+
+/-- the rule before the repair -/
+def thirdHydrogenOld (next bond h0 h1 : V3 α) : V3 α :=
+  let n1 := (rotateTetrahedral next bond (GNum.ofNat 120) [h0]).getD 0 h0
+  let n2 := (rotateTetrahedral next bond (GNum.ofNat 120) [n1]).getD 0 n1
+  if GNum.lt (GNum.dec 1 1) (dist h1 n1) then n1 else n2
+
 /-- `make_atom_with_no_bonds`: one Ångström from `atom` towards `close` -/
 def makeNoBonds (atom close : V3 α) : V3 α :=
   let vec := V3.sub close atom
